@@ -450,6 +450,9 @@ class Model:
 
     def lookup_target(self, target: str) -> Union[FuncInfo, ClassInfo, None]:
         """canonical dotted target -> FuncInfo/ClassInfo inside the package (following re-exports)."""
+        extra = self.__dict__.get("_extra_funcs")
+        if extra and target in extra:
+            return extra[target]
         seen = set()
         while target not in seen:
             seen.add(target)
